@@ -19,6 +19,10 @@
                INTEGER column declared BIGINT) is answered correctly;
              * C22-F4 (batch-less build input of a probe-preserving join): signature mirroring the failing arm of
                `create_joined_batch` + the error text.
+             * C22-F6 (dictionary-encoded VARCHAR probe key): the right input of the join is itself a join, a key column holds
+               strings, and the model with `dictProbeKeyNoMatch` reproduces the rows.
+             C22-F1 … F5 are repaired in /repo (status fixed in known_findings.json): a case matching one of them is no longer
+             attributed by ./check — it is reported as a VIOLATION carrying that label (a regression).
              Anything else is left unattributed (a new VIOLATION).
 -/
 import Driver.SqlCore
@@ -46,6 +50,8 @@ structure JoinDesc where
   /-- the non-key conjuncts; `exists_`: they are evaluated inside the subquery (row = right row, outer row = left row) -/
   rest : List Expr
   viaExists : Bool
+  /-- the right input of the join is itself a join (its output reaches the probe dictionary-encoded) -/
+  rNested : Bool := false
   /-- output expressions over left ++ right (Semi/Anti: over the left row) -/
   es : List Expr
 
@@ -84,8 +90,9 @@ def descOf (c : Case) (lwCat rwCat : Nat) : Except String JoinDesc :=
     let L ← inputOf l
     let R ← inputOf r
     let (lk, rk, rest) := if jt == .cross then ([], [], []) else splitOn lw on
+    let rNested := match r with | .join .. => true | _ => false
     pure { jt := jt, lw := lw, rw := rw, L := L, R := R, lkeys := lk, rkeys := rk, rest := rest,
-           viaExists := false, es := es }
+           viaExists := false, rNested := rNested, es := es }
   | .project _ es (.filter [sub] (.exists_ 0 neg) (.scan a)) =>
     match sub with
     | .project _ _ (.filter _ p (.scan b)) =>
@@ -269,8 +276,18 @@ def attrC22 (d : JoinDesc) (inp : Inputs) (buildLeftKnown : Option Bool) (cat : 
       if parquet && isSA d.jt && sets.any (fun x => x.1 == "C22-F2") && sigServed d out true then some "C22-F2"
       else if parquet && isSA d.jt && sets.any (fun x => x.1 == "C22-F5" && !x.2.2) && sigServed d out false then some "C22-F5"
       else none
+  -- C22-F6: the probe input is a join output and a key is a VARCHAR column: the dictionary-encoded probe key matches nothing
+  let strKey : Bool := (d.lkeys.zip d.rkeys).any fun (i, j) =>
+    (d.L.any fun l => match l.getD i .null with | .str _ => true | _ => false) ||
+    (d.R.any fun r => match r.getD j .null with | .str _ => true | _ => false)
+  let byDict (out : Table) : Option String :=
+    if d.rNested && strKey then
+      match modelRun { dictProbeKeyNoMatch := true } d inp true with
+      | .ok t => if Spec.bagEq out (normTable t) then some "C22-F6" else none
+      | .error _ => none
+    else none
   match o with
-  | .ok out => bySwitch out
+  | .ok out => (bySwitch out).orElse fun _ => byDict out
   | _ =>
     if sigMixedWidth d cat o msg then
       -- neutralised twin: answered correctly, or wrong only by one of the listed Semi/Anti findings
